@@ -2,6 +2,7 @@
 """Builds the saved-input corpus regress/<CXX>/ from the stored breaking changes of a property.
 
 usage: tools/harvest_corpus.py <CXX> [-j N] [--sources seeded|mutants|fixes|all] [--only-missing]
+       tools/harvest_corpus.py --ingest <CXX> <origin-name> <dir with replay files>     (used by tools/seed_recheck.sh)
 
 For every stored change (seeded/CXX-*/patch.diff, mutants/CXX/*.diff, and the reverse of every `fix:` commit listed for the property in
 known_findings.json) the patch is applied to a scratch copy of /repo's package, the registered quick check (search only, corpus off) is run
@@ -33,6 +34,36 @@ def sources(pid, which):
     return out
 
 
+def ingest(pid, name, reps, keep=2):
+    """keeps at most `keep` of the replay files `reps` (smallest first) as regress/<pid>/<name>-<hash>.json, each only if it holds on /repo"""
+    have = glob.glob(os.path.join(ROOT, "regress", pid, name + "-*.json"))
+    kept = [os.path.basename(f) for f in have]
+    for rp in sorted(reps, key=os.path.getsize):
+        if len(kept) >= keep:
+            break
+        if os.path.getsize(rp) > 400_000:
+            continue
+        ent = json.load(open(rp))
+        if ent.get("property") != pid:
+            continue
+        ent2 = {"property": pid, "sub_check": ent["sub_check"], "case": ent["case"], "tier": "quick",
+                "origin": name, "signature_on_changed_library": ent["signature"]}
+        h = hashlib.sha1(json.dumps(ent2["case"], sort_keys=True).encode()).hexdigest()[:8]
+        dst = os.path.join(ROOT, "regress", pid, f"{name}-{h}.json")
+        if os.path.basename(dst) in kept:
+            continue
+        # must hold on the unchanged tree
+        env2 = dict(os.environ, VERIF_NO_CORPUS="1")
+        env2.pop("MOUETTE_REPO", None); env2.pop("VERIF_OUT_DIR", None)
+        rr = subprocess.run([PY, "check.py", "--replay", os.path.abspath(rp)], cwd=ROOT, env=env2, capture_output=True, text=True)
+        if rr.returncode != 0 or "property held" not in rr.stdout:
+            continue
+        os.makedirs(os.path.dirname(dst), exist_ok=True)
+        json.dump(ent2, open(dst, "w"), sort_keys=True)
+        kept.append(os.path.basename(dst))
+    return kept
+
+
 def harvest(pid, name, src, is_commit, keep=2):
     D = tempfile.mkdtemp(prefix="hv.")
     try:
@@ -51,26 +82,7 @@ def harvest(pid, name, src, is_commit, keep=2):
             reps = sorted(glob.glob(os.path.join(D, "out", "replays", "*.json")), key=os.path.getsize)
             if reps:
                 break
-        kept = []
-        for rp in reps:
-            if len(kept) >= keep:
-                break
-            if os.path.getsize(rp) > 400_000:
-                continue
-            ent = json.load(open(rp))
-            # must hold on the unchanged tree
-            env2 = dict(os.environ, VERIF_NO_CORPUS="1")
-            env2.pop("MOUETTE_REPO", None)
-            rr = subprocess.run([PY, "check.py", "--replay", rp], cwd=ROOT, env=env2, capture_output=True, text=True)
-            if rr.returncode != 0 or "property held" not in rr.stdout:
-                continue
-            ent2 = {"property": pid, "sub_check": ent["sub_check"], "case": ent["case"], "tier": "quick",
-                    "origin": name, "signature_on_changed_library": ent["signature"]}
-            h = hashlib.sha1(json.dumps(ent2["case"], sort_keys=True).encode()).hexdigest()[:8]
-            dst = os.path.join(ROOT, "regress", pid, f"{name}-{h}.json")
-            os.makedirs(os.path.dirname(dst), exist_ok=True)
-            json.dump(ent2, open(dst, "w"), sort_keys=True)
-            kept.append(os.path.basename(dst))
+        kept = ingest(pid, name, reps, keep)
         return name, ("no-violation" if not reps else "ok"), kept
     finally:
         shutil.rmtree(D, ignore_errors=True)
@@ -78,6 +90,9 @@ def harvest(pid, name, src, is_commit, keep=2):
 
 def main():
     a = sys.argv[1:]
+    if a[0] == "--ingest":          # --ingest CXX <origin-name> <dir with replay files>
+        print("corpus:", ingest(a[1], a[2], glob.glob(os.path.join(a[3], "*.json"))))
+        return
     pid = a[0]
     j = int(a[a.index("-j") + 1]) if "-j" in a else 2
     which = a[a.index("--sources") + 1] if "--sources" in a else "all"
